@@ -506,6 +506,26 @@ func (s *Store) bin(op Op, a, b *Term) *Term {
 			return s.Zext(s.bin(nop, x, s.Const(x.S.W, b.Val)), w)
 		}
 	}
+	// (x*c + y) / C and % C with c | C, 0 <= y < c and no wrap-around: x / (C/c), (x % (C/c))*c + y
+	if (op == OUDiv || op == OSDiv || op == OURem || op == OSRem) && b.IsConst() && sx(b.Val, w) > 0 && a.Op == OAdd && w == 64 {
+		m, y := a.Args[0], a.Args[1]
+		if m.Op != OMul {
+			m, y = y, m
+		}
+		if m.Op == OMul && m.Args[1].IsConst() && sx(m.Args[1].Val, w) > 0 && b.Val%m.Args[1].Val == 0 {
+			c := m.Args[1].Val
+			_, yh := s.rangeOf(y)
+			_, xh := s.rangeOf(m.Args[0])
+			hi, lo := bits.Mul64(xh, c)
+			if yh < c && hi == 0 && lo < (uint64(1)<<62) {
+				k := s.Const(w, b.Val/c)
+				if op == OUDiv || op == OSDiv {
+					return s.bin(op, m.Args[0], k)
+				}
+				return s.bin(OAdd, s.bin(OMul, s.bin(op, m.Args[0], k), s.Const(w, c)), y)
+			}
+		}
+	}
 	switch op {
 	case OAdd:
 		if zero(a) {
